@@ -1426,6 +1426,38 @@ Proof.
   unfold Rdiv at 1. rewrite Rabs_mult, (Rabs_pos_eq (/ 60)) by lra. lra.
 Qed.
 
+
+(* ---- scope: the legacy stepwise calculation is not a flow (documented as an approximation) ---- *)
+Definition stepwise_after (cap maxP ts c pilot V T : R) : R :=
+  L2_charge_stepwise__current_charge (stateS (L2_charge_stepwise cap c 0 maxP 0 ts pilot V T 0 0)).
+
+Lemma stepwise_after_ramp cap maxP ts c pilot V T :
+  0 < V -> 0 < T -> ts <= c / cap ->
+  (1 - c / cap) / (1 - ts) * maxP <= pilot * V / 1000 ->
+  (1 - c / cap) / (1 - ts) * maxP <= (cap - c) / (T / 60) ->
+  stepwise_after cap maxP ts c pilot V T = c + (1 - c / cap) / (1 - ts) * maxP * (T / 60).
+Proof.
+  intros HV HT Hs H1 H2. unfold stepwise_after.
+  rewrite L2_charge_stepwise_ok by assumption. cbv zeta. cbn.
+  unfold stepwise_power. cbv zeta.
+  replace (Rltb (c / cap) ts) with false by (symmetry; apply Rltb_false; lra).
+  replace (Rltb 0 0) with false by (symmetry; apply Rltb_false; lra).
+  rewrite (Rmin_right (pilot * V / 1000)) by lra.
+  rewrite Rmin_left by lra. reflexivity.
+Qed.
+
+Lemma c14_stepwise_does_not_split :
+  stepwise_after 50 7 (4/5) 45 32 208 60
+  <> stepwise_after 50 7 (4/5) (stepwise_after 50 7 (4/5) 45 32 208 30) 32 208 30.
+Proof.
+  assert (E1 : stepwise_after 50 7 (4/5) 45 32 208 60 = 97/2).
+  { rewrite stepwise_after_ramp by lra. lra. }
+  assert (E2 : stepwise_after 50 7 (4/5) 45 32 208 30 = 187/4).
+  { rewrite stepwise_after_ramp by lra. lra. }
+  rewrite E1, E2.
+  rewrite stepwise_after_ramp by lra. lra.
+Qed.
+
 (* ---- packaged statements for Props/C03.v ---- *)
 Lemma Battery_charge_rejects cap c p0 maxP pilot V T : V <= 0 \/ T <= 0 ->
   Battery_charge cap c p0 maxP pilot V T =
